@@ -98,18 +98,23 @@ P["C10"] = dict(
     note="codecs/newline translation/chardet are oracles (explicit Section hypotheses); URLs out of scope; known finding path-linebreak.",
     design="DESIGN.md 6 C10")
 P["C11"] = dict(
-    technique="Coq proof (writer-state fixed points: idempotent normalisations, refresh, data tokens under the print-fixed-point oracle) + correspondence of R-W-R-W-R chains on corpus",
-    text="partial: proved — a second write of the same object gives the same text and state, the values write leaves in memory are fixed points, "
-         "printed tokens are fixed under re-printing (oracle), iteration lemma; the composition through header grammar (C04/C03) and data round trip "
-         "(C01) is covered by evaluating whole read->write->read->write->read chains in the model and comparing with lasio on the corpus and mutants.",
-    note="oracle: fmt % float(fmt % x) = fmt % x; composition not a single theorem.",
-    design="DESIGN.md 6 C11")
+    technique="Coq proof (writer fixed points; the second cycle proper on a decidable domain: the write of the object READ BACK returns the same text, hence k cycles) + correspondence of R-W-R-W-R chains on corpus/generated files, with the theorem's domain evaluated on every chain",
+    text="proved: a second write of the same object gives the same text and state; the values write leaves in memory are fixed points; read results "
+         "are canonical (C11_read_canonical); on the decidable domain cycle_hypsb (first written form in normal form: each item line and each token "
+         "is a read-then-print fixed point, oracle Hfix) C11_second_cycle: write o (object read back) = the same text, and C11_cycles_same_text for "
+         "any number of cycles; outside it C11_second_cycle_content_partial (content equal up to numeric equality, one premise on the second written "
+         "form left as hypothesis). The proof exposed defect F28 (nested bracket pairs), fixed. Tie: whole chains evaluated in the model and compared "
+         "with lasio; per chain the harness evaluates both domains in Coq and checks the theorem's prediction (same second text) on real lasio.",
+    note="oracle: fmt % float(fmt % x) = fmt % x; the domain hypotheses are per-piece fixed-point conditions, not a syntactic characterisation; known finding nonblank-spacer.",
+    design="DESIGN.md 6 C11, 9.4")
 P["C12"] = dict(
     technique="Coq proof (writer and reader order tables agree, case-insensitively, against the translated ORDER_DEFINITIONS; header independent of data options) + pairwise configuration correspondence",
     text="C12_order_tables_agree / C12_order_case_insensitive proved against Gen/Tables.v (re-translated from defaults.py every run: an edit that "
          "makes reader and writer disagree breaks the proof); header lines and the in-memory state do not depend on data-presentation options; the "
-         "1.2/2.0 swap is on disk only. Tie: pairs of writer configurations sharing the numeric format on corpus/generated/mixed-case bases.",
-    note="formats of equal precision are paired (oracle: equal precision prints equal digits); parse direction rests on C04/C03.",
+         "1.2/2.0 swap is on disk only; at file level C12_file_presentation_independent / C12_file_wrap_independent / C12_file_options_independent: two "
+         "written forms of one object that agree on the per-column formats read back to equal sections and equal data (on the file round-trip domain "
+         "file_hypsb). Tie: pairs of writer configurations on corpus/generated/mixed-case bases incl. version 1.2 vs 2.0 and rows over 255 characters.",
+    note="'equal precision' is taken as equal format strings per existing column in the theorems (different strings that print the same digits: correspondence only); known finding nonblank-spacer.",
     design="DESIGN.md 6 C12")
 P["C13"] = dict(
     technique="Coq proof (invariant by induction over operation sequences, refuted at the known clash) + exhaustive short operation sequences",
@@ -121,8 +126,10 @@ P["C13"] = dict(
 P["C14"] = dict(
     technique="Coq proof (refinement of the curve collection to a plain list model, lifted to all histories) + exhaustive/random edit histories incl. pairs of LASFiles",
     text="Every curve operation refines the list-model step (abs (step s op) = spec_step (abs s) op) and observations agree, lifted by induction to "
-         "all histories; independence of two LASFiles is by construction in the model and carried by the alternating-history correspondence.",
-    note="numpy view/copy semantics outside the model (columns are immutable values).",
+         "all histories (under no_suffix_clash where names are involved: theorems named _partial); observations are those of the implementation "
+         "model's own keys() resolution; independence of two LASFiles is by construction in the model (value semantics) and carried by the "
+         "alternating-history correspondence and the implementation-side list-model oracle (cross-file item operations included).",
+    note="numpy view/copy semantics and object identity outside the model (columns are immutable values); known findings suffix-clash, shared-item, same-item-twice.",
     design="DESIGN.md 6 C14")
 P["C15"] = dict(
     technique="Coq proof (pointwise laws on arbitrary section states) + exhaustive operation/probe sequences",
@@ -139,10 +146,13 @@ P["C16"] = dict(
     note="'to format precision' = the text CPython prints (oracle fmtv/fmt_diff); STRT/STOP/STEP keyword arguments left to lasio.",
     design="DESIGN.md 6 C16")
 P["C17"] = dict(
-    technique="Coq proof (rebuild o reduce = id on all observable fields, lifted to sections/LASFile) + pickle protocols 0-5 and deepcopy correspondence",
-    text="partial by nature: proved — __reduce__/constructor/state restore reproduce every observable field incl. session mnemonics of duplicates; "
-         "assumed — pickle/copy follow the __reduce__ protocol and copy payloads faithfully; independence checked by mutating the copy.",
-    note="pickle/copy are oracles.",
+    technique="Coq proof (rebuild o reduce = id on the item/section model) + pickle protocols 0-5 and deepcopy correspondence and implementation-side oracle",
+    text="partial by nature, and thin: proved — in the item/section model (names, session mnemonics, unit, value, descr, a data digest) rebuilding from "
+         "the reduced form reproduces every modelled field incl. session mnemonics of duplicates (pickle and deepcopy are one term in the model); "
+         "NOT in the model: arrays and dtypes, index_initial, index unit, LASFile attributes, byte-identical write() (C17_write_partial is a congruence "
+         "over an abstract write, not Writer.write) — these clauses are carried by the implementation-side oracle (protocols 0-5, deepcopy, copies "
+         "mutated afterwards, dtypes observed, in-place index edits before the copy) and the correspondence of the observable dump.",
+    note="pickle/copy are oracles; no pin on __reduce__.",
     design="DESIGN.md 6 C17")
 P["C18"] = dict(
     technique="Coq proof (encoder value map and strictness, CSV/Excel/DataFrame layouts, unit table decisions against translated DEPTH_UNITS, depth identity in Q) + export correspondence",
